@@ -21,4 +21,10 @@ var DefaultPatches = []Patch{
 		New:     "MinIdleConns: 0 * idleConns, PoolSize: 160,",
 		Comment: "go-redis pre-dials idle connections inside NewClient, before go-zero attaches the dial hook; a real dial must never happen inside a bubble; the pool size (go-redis default 10*GOMAXPROCS, which also is the number of dial errors after which go-redis fails fast) is pinned so that runs do not depend on GOMAXPROCS",
 	},
+	{
+		File:    "core/proc/shutdown.go",
+		Old:     "func (lm *listenerManager) addListener(fn func()) (waitForCalled func()) {\n\tlm.waitGroup.Add(1)\n",
+		New:     "func (lm *listenerManager) addListener(fn func()) (waitForCalled func()) {\n\tif verifNoListeners {\n\t\treturn func() {}\n\t}\n\tlm.waitGroup.Add(1)\n",
+		Comment: "process-global shutdown/wrap-up listener registry (a never-released sync.WaitGroup shared between the outside and the bubbles is a fatal runtime error; registrations would leak from run to run); signal-driven shutdown is outside every simulated property",
+	},
 }
